@@ -39,6 +39,13 @@ VMs, deletes, 1..300 repeated executes.  Oracles (= the property), all on the re
   (6) for the pool programs whose meaning is obvious from the text (counter, pure, faults, churn) a tiny reference
       semantics in this file says what each call has to give after the earlier calls on that VM (catches a result
       copied from the wrong slot, which every replay would reproduce faithfully).
+Process-global residue (kind `residue` + the systematic family residue_histories): operations that leave state in the
+PROCESS rather than in the program/VM they name — float arithmetic raising each IEEE status flag silently at run time
+(pool fpa) and while folding constants (fpc_*), failing compiles whose input ends in every scanner situation
+(T.<base>.<n> = pool source <base> cut after n bytes: inside a string / escape / octal escape / comment / `use`
+directive / identifier / number / operator / char literal; bad_mod_trunc* = the same inside a used module) — each followed
+by observers (math built-ins and printing of fpb on the old and on a new VM, compiles of sources with string literals,
+comments, `use`), judged by oracles (1), (2), (2b).
 Violation keys (stable): execute:sp-leak-per-call, execute:sp-leak-after-error, execute:after-failed-global-init,
 execute:reinitialises-globals, execute:relative-stack-use-grows, execute:peak-exceeds-first-call,
 execute:differs-from-fresh-vm-replay:{result,output,diagnostic}, execute:pure-call-differs-from-first-call:*,
@@ -106,17 +113,250 @@ VALID = {
     "usemod": {"entries": {"main": [()], "bump": [("i:1",), ("i:10",)], "get": [()]},
                "pure": False, "state": None},
     "initfail": {"entries": {"main": [()]}, "pure": True, "state": None},
+    # --- process-global residue: float arithmetic that silently raises each IEEE status flag at run time (fpa) or
+    #     while the compiler folds constants (fpc_*), observed by math built-ins / printing (fpb)
+    "fpa": {"entries": {"main": [()], "over": [("f:1e30",), ("f:-3e25",)], "under": [("f:1e-30",), ("f:-2e-25",)],
+                        "denorm": [("f:1e-30",)], "inexact": [("f:1.0",), ("f:0.1",)], "invalid": [("f:1e30",)],
+                        "dunder": [("i:30",)], "dover": [("i:30",)]},
+            "pure": True, "state": None},
+    "fpb": {"entries": {"main": [()], "root": [("f:16.0",), ("f:2.0",), ("f:-1.0",)], "pw": [("f:2.0", "f:10.0"), ("f:1.5", "f:0.5")],
+                        "lg": [("f:1.0",), ("f:8.0",)], "sine": [("f:0.5",), ("f:0.0",)], "show": [("f:1.5",), ("f:0.1",)],
+                        "strlen": [("f:2.5",)], "tang": [("f:0.25",)]},
+            "pure": True, "state": None},
+    "fpc_under": {"entries": {"main": [()], "tiny": [()]}, "pure": True, "state": None},
+    "fpc_over": {"entries": {"main": [()], "huge": [()]}, "pure": True, "state": None},
+    "fpc_invalid": {"entries": {"main": [()], "nan": [()]}, "pure": True, "state": None},
+    "fpc_inexact": {"entries": {"main": [()], "third": [()]}, "pure": True, "state": None},
+    "fpc_dunder": {"entries": {"main": [()], "tiny": [()]}, "pure": True, "state": None},
+    # --- every lexical construct once (strings with escapes, comments, use, char/hex/long/double literals, multi-character
+    #     operators): observer of what an earlier compile left in the scanner, and the text that is truncated (T.<base>.<n>)
+    "lexrich": {"entries": {"main": [()], "lablen": [("i:0",), ("i:12",)], "shifts": [("i:9",)], "total": [("i:4",)],
+                            "weigh": [("f:1.0",), ("f:4.0",)], "pick": [("i:2",), ("i:7",)]},
+                "pure": True, "state": None},
 }
+FP_COMPILE_TIME = ["fpc_under", "fpc_over", "fpc_invalid", "fpc_inexact", "fpc_dunder"]
 INVALID = ["bad_lex", "bad_unterminated_string", "bad_unterminated_comment", "bad_syntax", "bad_types",
            "bad_constdiv2", "bad_missing_module", "bad_late_error", "bad_empty", "bad_in_module", "bad_eof",
-           "bad_constdiv"]
+           "bad_constdiv",
+           # the input of a used MODULE ends inside a string / inside an escape / inside a comment / inside a token / inside `use`
+           "bad_mod_truncs", "bad_mod_trunce", "bad_mod_truncc", "bad_mod_trunct", "bad_mod_truncu"]
 # sources that (surprisingly or not) compile with ret 0 but are never executed by the generator
 COMPILE_ONLY = set(INVALID)
 MISSING = "no_such_file"      # only for compile_file
 
 
+CRASHING = set()          # (mode, source) whose compile ALONE in a fresh process kills the process (measured by run()):
+                          # a defect of the compiler (property C05), the same with and without history; histories avoid it
+GEN_DIR = None            # where truncated sources T.<base>.<n> are materialised (set by run() / the worker initialiser)
+_pool_text = {}
+
+
+def pool_text(name):
+    if name not in _pool_text:
+        with open(os.path.join(POOLDIR, name + ".nev"), "rb") as f:
+            _pool_text[name] = f.read()
+    return _pool_text[name]
+
+
+def source_text(name):
+    """the bytes of a source by name; T.<base>.<n> = the first n bytes of pool source <base>"""
+    if name.startswith("T."):
+        _, base, n = name.split(".")
+        return pool_text(base)[:int(n)]
+    return pool_text(name)
+
+
 def src_path(name):
+    if name.startswith("T."):
+        d = GEN_DIR or os.path.join(common.VERIF, "out", "C15-gen")
+        path = os.path.join(d, name + ".nev")
+        if not os.path.exists(path):
+            os.makedirs(d, exist_ok=True)
+            tmp = "%s.%d.tmp" % (path, os.getpid())
+            with open(tmp, "wb") as f:
+                f.write(source_text(name))
+            os.replace(tmp, path)
+        return path
     return os.path.join(POOLDIR, name + ".nev")
+
+
+# ------------------------------------------------------------------------------------------
+# where can the input of a compile END?  A small re-statement of the start conditions of front/scanner.l
+# (INITIAL, C_STRING, C_COMMENT, USE, MODULE_REF) + the partial-token situations inside INITIAL.
+# scan_classes(text)[n] = the situation of the scanner when the input is text[:n]  (n = 1 .. len-1)
+# ------------------------------------------------------------------------------------------
+MULTI_OPS = [b"->", b"..", b"<<<", b">>>", b"&&&", b"|||", b"^^^", b"~~~", b"==", b"!=", b"<=", b">=", b"&&", b"||", b"::",
+             b"|>", b"/*"]
+SCAN_CLASSES = ["string", "string-escape", "string-octal", "comment", "comment-star", "line-comment", "use-keyword",
+                "use-name", "use-name-end", "ident", "ident-end", "number", "number-dot", "char-partial", "op-partial",
+                "initial"]
+
+
+def scan_classes(text):
+    n = len(text)
+    cls = [None] * (n + 1)
+    i = 0
+    ID0 = b"abcdefghijklmnopqrstuvwxyzABCDEFGHIJKLMNOPQRSTUVWXYZ_"
+    IDC = ID0 + b"0123456789"
+    DIG = b"0123456789"
+    HEX = DIG + b"abcdefABCDEF"
+
+    def mark(a, b, c):           # input ends after a+1 .. b characters
+        for k in range(a + 1, min(b, n) + 1):
+            cls[k] = c
+    while i < n:
+        ch = text[i:i + 1]
+        if ch in b" \t\r\n":
+            cls[i + 1] = "initial"
+            i += 1
+        elif ch == b"#":
+            j = text.find(b"\n", i)
+            j = n if j < 0 else j
+            mark(i, j, "line-comment")
+            i = j
+        elif text.startswith(b"/*", i):
+            cls[i + 1] = "op-partial"
+            j = text.find(b"*/", i + 2)
+            end = n if j < 0 else j + 1
+            for k in range(i + 2, end + 1):
+                cls[k] = "comment-star" if (k > i + 2 and text[k - 1:k] == b"*") else "comment"
+            if j >= 0:
+                cls[j + 2] = "initial"
+            i = n if j < 0 else j + 2
+        elif ch == b'"':
+            k = i + 1
+            cls[k] = "string"
+            while k < n:
+                c2 = text[k:k + 1]
+                if c2 == b'"':
+                    cls[k + 1] = "initial"
+                    k += 1
+                    break
+                if c2 == b"\n":                 # the scanner gives up the literal at a newline
+                    cls[k + 1] = "initial"
+                    k += 1
+                    break
+                if c2 == b"\\":
+                    cls[k + 1] = "string-escape"
+                    if k + 1 < n:
+                        m = k + 2
+                        if text[k + 1:k + 2] in b"01234567":
+                            while m < n and m < k + 4 and text[m:m + 1] in b"01234567":
+                                m += 1
+                            for q in range(k + 2, m + 1):
+                                cls[q] = "string-octal" if q < k + 4 else "string"
+                        else:
+                            cls[k + 2] = "string"
+                        k = m
+                    else:
+                        k += 1
+                    continue
+                cls[k + 1] = "string"
+                k += 1
+            i = k
+        elif ch == b"'":
+            if text[i + 2:i + 3] == b"'":
+                cls[i + 1] = cls[i + 2] = "char-partial"
+                cls[min(i + 3, n)] = "initial"
+                i += 3
+            else:
+                cls[i + 1] = "char-partial"
+                i += 1
+        elif ch in ID0:
+            j = i
+            while j < n and text[j:j + 1] in IDC:
+                j += 1
+            mark(i, j - 1, "ident")
+            cls[j] = "ident-end"
+            word = text[i:j]
+            i = j
+            if word == b"use":
+                while i < n and text[i:i + 1] in b" \t\r\n":
+                    cls[i + 1] = "use-keyword"
+                    i += 1
+                j = i
+                while j < n and text[j:j + 1] in ID0 + b"./":
+                    j += 1
+                mark(i, j - 1, "use-name")
+                if j > i:
+                    cls[j] = "use-name-end"
+                i = j
+                if i < n and text[i:i + 1] in b". \t\n":        # <MODULE_REF>
+                    cls[i + 1] = "initial"
+                    i += 1
+        elif ch in DIG:
+            j = i
+            if text[i:i + 2] in (b"0x", b"0X"):
+                j = i + 2
+                while j < n and text[j:j + 1] in HEX:
+                    j += 1
+            else:
+                while j < n and text[j:j + 1] in DIG:
+                    j += 1
+                if text[j:j + 1] == b"." and text[j + 1:j + 2] in DIG and j + 1 < n:
+                    cls[j + 1] = "number-dot"
+                    j += 1
+                    while j < n and text[j:j + 1] in DIG:
+                        j += 1
+            if j < n and text[j:j + 1] in b"lLfFdD":
+                j += 1
+            for k in range(i + 1, j + 1):
+                if cls[k] is None:
+                    cls[k] = "number"
+            i = j
+        else:
+            op = None
+            for o in sorted(MULTI_OPS, key=len, reverse=True):
+                if text.startswith(o, i):
+                    op = o
+                    break
+            if op is None:
+                cls[i + 1] = "initial"
+                i += 1
+            else:
+                mark(i, i + len(op) - 1, "op-partial")
+                cls[i + len(op)] = "initial"
+                i += len(op)
+    return cls
+
+
+TRUNC_BASES = ["lexrich", "strings", "usemod", "pure"]
+
+
+def truncations(base, rng=None, per_class=2):
+    """names T.<base>.<n>, for every scanner situation that occurs in <base>: the first and the last place where the
+    input can end in it (+ one drawn by rng) -> [(name, class)]"""
+    text = pool_text(base)
+    cls = scan_classes(text)
+    where = {}
+    for k in range(1, len(text)):
+        if cls[k] is not None:
+            where.setdefault(cls[k], []).append(k)
+    out = []
+    for c in SCAN_CLASSES:
+        ks = where.get(c, [])
+        if not ks:
+            continue
+        pick = [ks[0], ks[-1]][:per_class]
+        if rng is not None:
+            pick.append(rng.choice(ks))
+        for k in sorted(set(pick)):
+            out.append(("T.%s.%d" % (base, k), c))
+    return out
+
+
+def static_truncations():
+    out = []
+    for b in TRUNC_BASES:
+        out += truncations(b, None, 2 if b == "lexrich" else 1)
+    return out
+
+
+try:
+    TRUNCATED = static_truncations()
+except OSError:
+    TRUNCATED = []
+INVALID += [nm for nm, _ in TRUNCATED]
 
 
 # ------------------------------------------------------------------------------------------
@@ -227,7 +467,9 @@ def gen_history(rng, kind):
             src = MISSING
         else:
             src = rng.choice(INVALID)
-        emit(["compile", h, mode, src])
+        mode = usable_mode(mode, src)
+        if mode is not None:
+            emit(["compile", h, mode, src])
 
     def do_call(h=None, v=None):
         progs = [x for x in s.prog if s.prog[x]["src"] in VALID] if h is None else [h]
@@ -288,6 +530,22 @@ def gen_history(rng, kind):
                 do_compile(valid_p=0.3)
             else:
                 do_call(h=0, v=rng.choice([0, 1]))
+    elif kind == "residue":
+        # several operations that leave process-global state behind, each followed by observers
+        emit(["compile", 0, rng.choice(["str", "file"]), "fpb"])
+        emit(["vm_new", 0, 5000, 300])
+        if rng.random() < 0.6:
+            do_call(h=0, v=0)
+        ops = residue_ops(rng)
+        for _ in range(rng.randint(1, 4)):
+            for st in instantiate_residue(rng.choice(ops), s, rng):
+                if s.ok(st):
+                    emit(st)
+            for st in observers(s, rng, rng.randint(2, 5), rot=None):
+                if s.ok(st):
+                    emit(st)
+            if rng.random() < 0.4 and len(s.prog) > 1:
+                emit(["pdel", rng.choice(sorted(h for h in s.prog if h != 0))])
     else:
         n = rng.randint(8, 40)
         for _ in range(n):
@@ -311,6 +569,146 @@ def gen_history(rng, kind):
         for h in sorted(s.prog):
             emit(["pdel", h])
     return hist
+
+
+# ------------------------------------------------------------------------------------------
+# process-global residue.  An operation of the API may leave state behind in the PROCESS (not in the program or VM it
+# names): the IEEE status flags after float arithmetic in the VM or in the constant folder, the scanner's statics
+# (start condition, pending string buffer, use stack, line number) after a compile that failed in any scanner
+# situation, utils.c's current file name...  residue_ops = the operations known to leave something; observers = the
+# operations whose outcome would show it: calls of math built-ins / printing, compiles of sources with string literals,
+# comments and `use`.  The oracles are the property's own: (1) fresh-process compile, (2)/(2b) fresh-VM replay.
+# ------------------------------------------------------------------------------------------
+OBSERVER_SOURCES = ["strings", "lexrich", "usemod", "pure", "fpb"]
+OBSERVER_CALLS = [("root", ("f:16.0",)), ("show", ("f:1.5",)), ("strlen", ("f:2.5",)), ("pw", ("f:2.0", "f:10.0")),
+                  ("sine", ("f:0.5",)), ("lg", ("f:1.0",)), ("tang", ("f:0.25",)), ("main", ())]
+
+
+def residue_ops(rng=None):
+    """[(kind, ...)]: every run-time float effect of fpa, every compile-time one, every failing compile of the pool,
+    every scanner situation in which the input of a compile can end"""
+    ops = []
+    for e in sorted(VALID["fpa"]["entries"]):
+        for a in VALID["fpa"]["entries"][e][:1]:
+            ops.append(("run", "fpa", e, a))
+    for c in FP_COMPILE_TIME:
+        ops.append(("compile", c, "str"))
+        ops.append(("compile", c, "file"))
+        ops.append(("run", c, sorted(x for x in VALID[c]["entries"] if x != "main")[0], ()))
+    ops.append(("run", "fpb", "root", ("f:-1.0",)))          # a built-in that legitimately raises `invalid`
+    ops.append(("run", "faults", "divi", ("i:0",)))
+    ops.append(("run", "faults", "chk", ("i:0",)))
+    trunc = list(TRUNCATED)
+    if rng is not None:
+        seen = set(nm for nm, _ in trunc)
+        for b in TRUNC_BASES:
+            for nm, c in truncations(b, rng, 0):
+                if nm not in seen:
+                    seen.add(nm)
+                    trunc.append((nm, c))
+    for k, (nm, c) in enumerate(trunc):
+        ops.append(("compile", nm, "str" if k % 3 else "file"))
+    for k, nm in enumerate(x for x in INVALID if not x.startswith("T.")):
+        ops.append(("compile", nm, "file" if k % 3 else "str"))
+    return ops
+
+
+def usable_mode(mode, src):
+    if (mode, src) not in CRASHING:
+        return mode
+    other = "str" if mode == "file" else "file"
+    return other if (other, src) not in CRASHING else None
+
+
+def _free(used, lo=1):
+    for h in range(lo, 40):
+        if h not in used:
+            return h
+    return None
+
+
+def instantiate_residue(op, sim, rng=None):
+    """steps of one residue operation on handles that are free in sim"""
+    if op[0] == "compile":
+        mode = usable_mode(op[2], op[1])
+        return [["compile", _free(sim.prog), mode, op[1]]] if mode else []
+    h, v = _free(sim.prog), _free(sim.vm)
+    return [["compile", h, "str", op[1]], ["vm_new", v, 5000, 300], ["prepare", h, op[2], list(op[3])], ["execute", h, v]]
+
+
+def observers(sim, rng, count, rot=0):
+    """count observer operations: B calls on its old VM and on a new VM, compiles of sources whose scanning would show a
+    left-over scanner state.  rot selects which observer comes first (systematic family) or rng draws them"""
+    steps = []
+    used_p, used_v = set(sim.prog), set(sim.vm)
+    cand = []
+    for i, src in enumerate(OBSERVER_SOURCES):
+        cand.append(("compile", src, "str" if i % 2 == 0 else "file"))
+    for e, a in OBSERVER_CALLS:
+        cand.append(("call", e, a, 0))
+    cand.append(("newvm",))
+    for e, a in OBSERVER_CALLS[:3]:
+        cand.append(("call", e, a, None))
+    if rot is None:
+        order = [rng.choice(cand) for _ in range(count)]
+    else:
+        # the first observer decides what a one-shot residue hits: rotate compiles and calls separately
+        comp = [c for c in cand if c[0] == "compile"]
+        rest = [c for c in cand if c[0] != "compile"]
+        comp = comp[rot % len(comp):] + comp[:rot % len(comp)]
+        calls = rest[:len(OBSERVER_CALLS)]
+        calls = calls[rot % len(calls):] + calls[:rot % len(calls)]
+        order = ([comp[0], calls[0], calls[1], comp[1]] + [rest[len(OBSERVER_CALLS)]] + rest[len(OBSERVER_CALLS) + 1:] + comp[2:] + calls[2:])[:count]
+    newvm = None
+    for c in order:
+        if c[0] == "compile":
+            h = _free(used_p)
+            used_p.add(h)
+            steps.append(["compile", h, c[2], c[1]])
+        elif c[0] == "newvm":
+            newvm = _free(used_v)
+            used_v.add(newvm)
+            steps.append(["vm_new", newvm, 5000, 300])
+        else:
+            v = c[3]
+            if v is None:
+                if newvm is None:
+                    newvm = _free(used_v)
+                    used_v.add(newvm)
+                    steps.append(["vm_new", newvm, 5000, 300])
+                v = newvm
+            steps.append(["prepare", 0, c[1], list(c[2])])
+            steps.append(["execute", 0, v])
+    return steps
+
+
+def residue_histories(rng, limit=None):
+    """the systematic family: B warmed up; ONE residue operation; the observers (rotated); optionally tidy up"""
+    ops = residue_ops(rng)
+    hists = []
+    for k, op in enumerate(ops):
+        s = Sim()
+        hist = [["compile", 0, "str", "fpb"], ["vm_new", 0, 5000, 300], ["prepare", 0, "root", ["f:16.0"]], ["execute", 0, 0]]
+        for st in hist:
+            s.apply(st)
+        for st in instantiate_residue(op, s):
+            if s.ok(st):
+                s.apply(st)
+                hist.append(st)
+        if k % 4 == 1:                      # the residue's own program / VM is gone before anybody looks
+            for st in [["vdel", v] for v in sorted(s.vm) if v != 0] + [["pdel", h] for h in sorted(s.prog) if h != 0]:
+                s.apply(st)
+                hist.append(st)
+        for st in observers(s, rng, 9 if op[0] == "run" else 7, rot=k):
+            if s.ok(st):
+                s.apply(st)
+                hist.append(st)
+        assert valid_history(hist), hist
+        hists.append(hist)
+    if limit is not None and len(hists) > limit:
+        rng.shuffle(hists)
+        hists = hists[:limit]
+    return hists
 
 
 # ------------------------------------------------------------------------------------------
@@ -687,6 +1085,15 @@ def evaluate(env, hist, want=None):
         stats["refused"] = 1
         return F, stats
     # (5) sanitizer / crash
+    if (r.san or r.rc != 0) and blocks and blocks[-1].ret is None and len(blocks) <= len(hist) \
+            and hist[len(blocks) - 1][0] == "compile" and len(blocks) > 1:
+        # the process died inside a compile: does the same compile alone in a fresh process die the same way?  Then the
+        # outcome does not depend on the history (the crash itself is property C05's finding)
+        st = hist[len(blocks) - 1]
+        ref, rsan = get_solo_compile(env, st[2], st[3])
+        if ref is None and (sanitizer_key(rsan)[0] if rsan else "crash") == (sanitizer_key(r.san)[0] if r.san else "crash"):
+            stats["crash_same_as_alone"] = 1
+            r.san, r.rc = "", 0
     if r.san:
         k, summ = sanitizer_key(r.san)
         last = blocks[-1] if blocks else None
@@ -1023,10 +1430,21 @@ def shrink(env, hist, key, budget=70):
 _ENV = None
 
 
-def _init_worker(drv, workdir, policy, runner):
-    global _ENV, RUN
+def _init_worker(drv, workdir, policy, runner, gen_dir=None, crashing=()):
+    global _ENV, RUN, GEN_DIR
     RUN = runner
+    GEN_DIR = gen_dir
+    CRASHING.clear()
+    CRASHING.update(crashing)
     _ENV = Env(drv, workdir, policy)
+
+
+def _probe_alone(job):
+    """does this compile alone in a fresh process kill the process?"""
+    mode, src = job
+    r = run_script(_ENV.drv, _ENV.workdir, [step_line(["compile", 0, mode, src])])
+    dead = not r.blocks or r.blocks[0].ret is None
+    return mode, src, (sanitizer_key(r.san)[0] if r.san else "crash:rc=%d" % r.rc) if dead else None
 
 
 def _work(job):
@@ -1102,8 +1520,9 @@ def runner_is_current():
 
 
 def run(ctx):
-    global RUN
+    global RUN, GEN_DIR
     RUN = RUN_BUILT
+    GEN_DIR = os.path.join(ctx.outdir, "gen")
     t0 = time.time()
     ctx.proofs()
     lib = common.repobuild("asan")
@@ -1172,10 +1591,24 @@ def run(ctx):
             ctx.correspondence_broken("api-model-vs-nev_execute(300 calls)", rep)
     ctx.coverage["repeat_300_calls_on_200_slots"] = rep
 
+    # ---- which compiles kill the process even alone?  (C05's business; the generators avoid them) -------------------
+    CRASHING.clear()
+    rrng = random.Random(ctx.seed * 7919 + 15)
+    names = sorted(set(INVALID) | set(op[1] for op in residue_ops(rrng) if op[0] == "compile"))
+    with multiprocessing.Pool(NPROC, initializer=_init_worker, initargs=(drv, workdir, policy, RUN, GEN_DIR)) as pool:
+        probed = pool.map(_probe_alone, [(m, x) for x in names for m in ("str", "file")], chunksize=4)
+    alone = {}
+    for m, x, k in probed:
+        if k is not None:
+            CRASHING.add((m, x))
+            alone.setdefault(k, []).append("%s:%s" % (m, x))
+    ctx.coverage["compiles_that_crash_alone(left to C05, avoided by the generators)"] = {k: v[:6] + (["... %d in all" % len(v)] if len(v) > 6 else [])
+                                                                                          for k, v in alone.items()}
+
     # ---- histories ---------------------------------------------------------------------------
     quick = ctx.tier == "quick"
-    plan = ([("mixed", 90), ("compile", 50), ("twovm", 30), ("repeat", 16)] if quick else
-            [("mixed", 5000), ("compile", 2500), ("twovm", 1800), ("repeat", 500)])
+    plan = ([("mixed", 90), ("compile", 50), ("twovm", 30), ("repeat", 16), ("residue", 40)] if quick else
+            [("mixed", 5000), ("compile", 2500), ("twovm", 1800), ("repeat", 500), ("residue", 2500)])
     jobs = []
     n = 0
     # corpus first
@@ -1195,18 +1628,40 @@ def run(ctx):
         jobs, plan, n = [(0, "replay", ctx.seed, replay_hist)], [], 1
     else:
         jobs.append((n, "probe", ctx.seed, PROBE_HIST)); n += 1
+    residue_info = {}
+    if replay_hist is None:
+        # the systematic residue family: one history per (operation that leaves process-global state x first observer)
+        rrng = random.Random(ctx.seed * 7919 + 15)
+        rops = residue_ops(rrng)
+        fam = residue_histories(random.Random(ctx.seed * 7919 + 15))
+        for h in fam:
+            jobs.append((n, "residue-systematic", ctx.seed, h)); n += 1
+        tcls = dict(TRUNCATED)
+        by = {}
+        for op in rops:
+            if op[0] == "run":
+                k = "run-time:%s.%s" % (op[1], op[2])
+            elif op[1].startswith("T."):
+                k = "input-ends-in:" + (tcls.get(op[1]) or scan_classes(pool_text(op[1].split(".")[1]))[int(op[1].split(".")[2])])
+            elif op[1] in VALID:
+                k = "compile-time-fold:" + op[1]
+            else:
+                k = "failing-compile:" + op[1]
+            by[k] = by.get(k, 0) + 1
+        residue_info = {"operations": len(rops), "histories": len(fam), "by_operation": by,
+                        "observer_sources": OBSERVER_SOURCES, "observer_calls_of_fpb": [e for e, _ in OBSERVER_CALLS]}
     for kind, cnt in plan:
         for _ in range(cnt):
             jobs.append((n, kind, ctx.seed, None)); n += 1
 
     results = []
-    with multiprocessing.Pool(NPROC, initializer=_init_worker, initargs=(drv, workdir, policy, RUN)) as pool:
+    with multiprocessing.Pool(NPROC, initializer=_init_worker, initargs=(drv, workdir, policy, RUN, GEN_DIR, sorted(CRASHING))) as pool:
         for res in pool.imap_unordered(_work, jobs, chunksize=2):
             results.append(res)
     results.sort(key=lambda x: x[0])
 
     tot = {"histories": 0, "ops": 0, "compiles": 0, "executes": 0, "nontrivial": 0, "model_calls": 0,
-           "model_skipped": 0, "primed": 0, "replayed_vms": 0, "refused": 0, "referenced": 0}
+           "model_skipped": 0, "primed": 0, "replayed_vms": 0, "refused": 0, "referenced": 0, "crash_same_as_alone": 0}
     classes, kinds, distinct = {}, {}, set()
     first = {}      # key -> (hist, finding)
     for idx, kind, hist, F, st in results:
@@ -1224,9 +1679,13 @@ def run(ctx):
             if f["key"] not in first or len(hist) < len(first[f["key"]][0]):
                 first[f["key"]] = (hist, f)
     ctx.count(evaluations=tot["histories"], nontrivial=len(distinct))
-    ctx.coverage["rule"] = ("API histories from VERIF_SEED over corpus/C15/pool (8 valid multi-entry programs, 12 invalid sources, a "
-                            "missing file): kinds mixed / compile-heavy / two VMs of one program / 1..300 repeated executes; "
+    ctx.coverage["rule"] = ("API histories from VERIF_SEED over corpus/C15/pool (%d valid multi-entry programs, %d invalid sources of which %d "
+                            "are pool sources cut off in each scanner situation, a missing file): kinds mixed / compile-heavy / two "
+                            "VMs of one program / 1..300 repeated executes / process-global residue (one operation that leaves the "
+                            "IEEE status flags or the scanner statics dirty, then observers: math built-ins, printing, compiles of "
+                            "sources with string literals/comments/use); " % (len(VALID), len(INVALID), len(TRUNCATED)) +
                             "non-trivial = a history with >= 2 compiles or a VM executed >= 2 times")
+    ctx.coverage["process_global_residue_family"] = residue_info
     ctx.coverage["generator"] = {"kinds": kinds, "totals": tot, "outcome_classes_of_executes(H=result,U=unhandled,A=assert,"
                                  "I=init failed,D=process exit)": classes}
     for idx, kind, hist, F, st in results[:400]:
@@ -1252,6 +1711,7 @@ def run(ctx):
         f2 = Fs[0] if Fs else f
         ctx.violation(key, f2["what"], {
             "history": small, "script": [step_line(s) for s in small],
+            "truncated_sources": {s[3]: source_text(s[3]).decode("latin-1") for s in small if s[0] == "compile" and s[3].startswith("T.")},
             "replay_cmd": "cd %s && <bin/repobuild asan>/apidrive <file with the script lines>" % POOLDIR,
             "detail": {k: v for k, v in f2.items() if k not in ("key", "what")},
             "policy_measured": {"pop_at_halt": policy[0], "restore_on_error": policy[1]},
